@@ -347,6 +347,9 @@ func (ex *Exec) callFunc(st *State, fn *types.Func, recv *Val, args []*Val, call
 	if c, ok := ex.eng.cs.Contracts[ref]; ok && c.Getter {
 		return ex.applyGetter(st, c, fn, recv, args, sc)
 	}
+	if _, ok := ex.eng.cs.Contracts[ref]; !ok && sc == nil {
+		ex.checkLockPre(st, ref, fn, recv, args, pos)
+	}
 	if c, ok := ex.eng.cs.Contracts[ref]; ok && !(ex.fn != nil && c.Inline) {
 		return ex.applyContract(st, c, fn, recv, args, pos, sc, resT)
 	}
@@ -669,6 +672,30 @@ func bindResults(sc *SpecCtx, fn *types.Func, results []*Val) {
 	}
 }
 
+// checkLockPre: inside a lock-discipline contract, a callee's own lock-discipline precondition (mutex free /
+// held / write-held when it is called) is an obligation of the call.
+func (ex *Exec) checkLockPre(st *State, ref string, fn *types.Func, recv *Val, args []*Val, pos token.Pos) {
+	if ex.contract == nil || !strings.HasSuffix(ex.contract.Func, "#locks") || strings.Contains(ref, "#") || ex.discovery > 0 || fn == nil {
+		return
+	}
+	lc := ex.eng.cs.Contracts[ref+"#locks"]
+	if lc == nil {
+		return
+	}
+	lsc := ex.calleeCtx(lc, fn, recv, args, st.clone())
+	ex.specDepth++
+	saved := ex.curClause
+	for _, cl := range lc.Clauses {
+		if cl.Kind == "requires" && cl.Expr != nil && cl.Name != "" {
+			ex.curClause = lc.Func + ": requires " + cl.Text
+			g := ex.eval(st, cl.Expr, lsc)
+			ex.oblig(st, "pre@call", fmt.Sprintf("pre(%s)%s@call%d", lc.Func, cl.Name, ex.callOrd(lc.Func, pos)), pos, g.S, "requires "+cl.Text)
+		}
+	}
+	ex.curClause = saved
+	ex.specDepth--
+}
+
 func (ex *Exec) applyContract(st *State, c *Contract, fn *types.Func, recv *Val, args []*Val, pos token.Pos, scCaller *SpecCtx, resT types.Type) []*Val {
 	ex.usedContracts[c.Func]++
 	if c.Kind == "assume" {
@@ -680,6 +707,11 @@ func (ex *Exec) applyContract(st *State, c *Contract, fn *types.Func, recv *Val,
 	defer func() { ex.specDepth-- }()
 	saveClause := ex.curClause
 	defer func() { ex.curClause = saveClause }()
+	// inside a lock-discipline contract, a callee's own lock-discipline precondition (mutex free / held /
+	// write-held when it is called) is an obligation of the call, and it leaves the mutex in that state
+	if scCaller == nil {
+		ex.checkLockPre(st, c.Func, fn, recv, args, pos)
+	}
 	// lets first (they may be used by requires)
 	evalLets := func(s *State) {
 		for _, cl := range c.Clauses {
@@ -711,7 +743,7 @@ func (ex *Exec) applyContract(st *State, c *Contract, fn *types.Func, recv *Val,
 		}
 	}
 	// object invariants of the callee's receiver must hold at the call (visible-state semantics)
-	if scCaller == nil && ex.discovery == 0 && recv != nil && !c.Unshared {
+	if scCaller == nil && ex.discovery == 0 && recv != nil && !c.Unshared && !(ex.contract != nil && ex.contract.NoInv) {
 		if sig, ok := fn.Type().(*types.Signature); ok && sig.Recv() != nil {
 			n := namedOf(sig.Recv().Type())
 			if n != nil && len(ex.eng.cs.ObjInvs[typeKey(n)]) > 0 && ex.fn != nil && ex.fn.Pkg != nil && fn.Pkg() != nil && ex.fn.Pkg.Types != fn.Pkg() {
